@@ -4007,3 +4007,55 @@ impl Entry<EntrySealed, EntryNew> {
         }
     }
 }
+
+// Verification hook (C08). Add-only and behaviour neutral; only compiled with `verif-hooks`.
+#[cfg(feature = "verif-hooks")]
+#[allow(clippy::items_after_test_module)]
+#[allow(clippy::type_complexity)]
+impl Entry<EntryIncremental, EntryNew> {
+    /// The consumer's per-entry decision of incremental replication on explicit parts:
+    /// `is_add_conflict`, then `resolve_add_conflict` (uuid conflict) or `merge_state`.
+    /// `incoming` plays the replicated entry, `db` the entry already in the database, `cid`
+    /// is the consumer's transaction change id. Returns (was an add conflict, the conflict
+    /// copy to create if any, the entry to write back).
+    pub fn verif_c08_apply(
+        uuid: Uuid,
+        incoming: (EntryChangeState, Eattrs),
+        db: (EntryChangeState, Eattrs),
+        cid: &Cid,
+        schema: &dyn SchemaTransaction,
+        trim_cid: &Cid,
+    ) -> (
+        bool,
+        Option<(Uuid, EntryChangeState, Eattrs)>,
+        (EntryChangeState, Eattrs),
+    ) {
+        let inc: EntryIncrementalNew = Entry {
+            valid: EntryIncremental {
+                uuid,
+                ecstate: incoming.0,
+            },
+            state: EntryNew,
+            attrs: incoming.1,
+        };
+        let db_ent: EntrySealedCommitted = Entry {
+            valid: EntrySealed {
+                uuid,
+                ecstate: db.0,
+            },
+            state: EntryCommitted { id: 1 },
+            attrs: db.1,
+        };
+        if inc.is_add_conflict(&db_ent) {
+            let (copy, res) = inc.resolve_add_conflict(cid, &db_ent);
+            (
+                true,
+                copy.map(|c| (c.valid.uuid, c.valid.ecstate, c.attrs)),
+                (res.valid.ecstate, res.attrs),
+            )
+        } else {
+            let res = inc.merge_state(&db_ent, schema, trim_cid);
+            (false, None, (res.valid.ecstate, res.attrs))
+        }
+    }
+}
